@@ -59,6 +59,16 @@ CHECKS = {
             "Generated complete witnesses (bit-vector and array states, several recorded entries per array, wide values, multi-witness streams) are printed and read back; failed properties, names, values and array contents at every recorded index must be equal; streams must come back one by one for every limit. Held on the witnesses executed.",
             "Bit-vector inputs only (array inputs are documented as unsupported by the printer); array index width <= 64.",
             "DESIGN.md §4 C16"),
+    "C05": ("exploration",
+            "runtime monitor: serialize_cmd output parsed, sort-checked and evaluated by an independent strict SMT-LIB front end, compared with the reference evaluator on the expression",
+            "Every command text written for the workload (systematic Bool/BitVec coercion matrix + random DAGs incl. div/rem, arrays, odd symbol names) is read by the strict front end R6 (Bool and (_ BitVec 1) distinct, declared-before-use, identifier rules) and its term evaluated under the SMT-LIB semantics on all/16 assignments; must agree with the reference evaluator on the expression. Held on the commands executed.",
+            "R6 written from the SMT-LIB 2.6 standard; names without a legal spelling are outside the domain.",
+            "DESIGN.md §4 C05"),
+    "C14": ("exploration",
+            "runtime round-trip monitor: writer output read back by parse_command/parse_expr/read_command, compared up to equivalence by the reference evaluator; model-value texts and their truncations",
+            "Every command the writer emits for the workload is read back and compared (kind, symbols, operands up to evaluation equivalence); generated model-value texts in solver spellings must be read as exactly their denotation and truncated/unbalanced variants must yield an error, never a wrong value or a panic. Held on the texts executed.",
+            "get-value responses are exercised through parse_expr here and through the live SolverContext::get_value path in C02/C03.",
+            "DESIGN.md §4 C14"),
 }
 
 NOT_YET = {}
